@@ -159,7 +159,15 @@ impl<T> RawTable<T> {
     /// While we try to make this incremental where possible, it may require all-at-once resizing.
     #[cfg_attr(feature = "inline-more", inline)]
     pub(crate) fn reserve(&mut self, additional: usize, hasher: impl Fn(&T) -> u64) {
-        let need = self.leftovers.as_ref().map_or(0, |t| t.table.len()) + additional;
+        let need = match self
+            .leftovers
+            .as_ref()
+            .map_or(0, |t| t.table.len())
+            .checked_add(additional)
+        {
+            Some(need) => need,
+            None => capacity_overflow(),
+        };
         if self.table.capacity() - self.table.len() > need {
             // We can accommodate the additional items without resizing, so all is well.
             if cfg!(debug_assertions) {
@@ -202,7 +210,12 @@ impl<T> RawTable<T> {
         additional: usize,
         hasher: impl Fn(&T) -> u64,
     ) -> Result<(), TryReserveError> {
-        let need = self.leftovers.as_ref().map_or(0, |t| t.table.len()) + additional;
+        let need = self
+            .leftovers
+            .as_ref()
+            .map_or(0, |t| t.table.len())
+            .checked_add(additional)
+            .ok_or(TryReserveError::CapacityOverflow)?;
         if self.table.capacity() - self.table.len() > need {
             // we can accommodate the additional items without resizing, so all good
             if cfg!(debug_assertions) {
@@ -418,6 +431,12 @@ impl<T> RawTable<T> {
     }
 }
 
+#[cold]
+#[inline(never)]
+fn capacity_overflow() -> ! {
+    panic!("Hash table capacity overflow")
+}
+
 fn and_carry_with_hasher<T: Clone>(
     table: &mut raw::RawTable<T>,
     leftovers: &Option<OldTable<T>>,
@@ -486,10 +505,14 @@ impl<T> RawTable<T> {
         // We also need to make sure we can fit the additional capacity required for `extra`.
         // Normally, that'll be handled by `inserts`, but not always!
         let add = usize::max(extra, inserts);
-        let new_table = if fallible {
-            raw::RawTable::try_with_capacity(need + inserts + add)?
-        } else {
-            raw::RawTable::with_capacity(need + inserts + add)
+        let capacity = need
+            .checked_add(inserts)
+            .and_then(|capacity| capacity.checked_add(add));
+        let new_table = match (capacity, fallible) {
+            (Some(capacity), true) => raw::RawTable::try_with_capacity(capacity)?,
+            (Some(capacity), false) => raw::RawTable::with_capacity(capacity),
+            (None, true) => return Err(TryReserveError::CapacityOverflow),
+            (None, false) => capacity_overflow(),
         };
         let old_table = mem::replace(&mut self.table, new_table);
         if old_table.len() != 0 {
